@@ -11,6 +11,7 @@ import (
 // valid subscription gets a fresh tag (its operation name), by which resolver events address it.
 //
 //	I init   Ib init with payload 42   Ir init refused by InitFunc   Io init with payload {}
+//	Iu init with payload null   Ik init with payload {"Authorization":"Bearer x"}
 //	S<id> start/subscribe (valid)   B<id> start with payload 42   Q<id> syntax error   U<id> user-kind refusal
 //	N<id> start without payload     X<id> stop/complete
 //	P ping  O pong  T connection_terminate  W a server->client type (data / next)  K connection_ack  Y unknown type
@@ -68,7 +69,7 @@ func (b *builder) add(sym string) {
 	var t string
 	switch sym[0] {
 	case 'I':
-		pl := map[string]string{"I": "n", "Ib": "num", "Ir": "rej", "Io": "obj"}[sym]
+		pl := map[string]string{"I": "n", "Ib": "num", "Ir": "rej", "Io": "obj", "Iu": "nul", "Ik": "tok"}[sym]
 		t = fmt.Sprintf("m:connection_init:-:%s:0", pl)
 	case 'S':
 		t = fmt.Sprintf("m:%s:%s:sub:%d", b.wire('S'), id, b.tags)
@@ -139,11 +140,36 @@ func words(alpha []string, n int, f func([]string)) {
 	rec(0)
 }
 
+// withInit replaces the plain init of a symbol sequence by another init variant
+func withInit(d []string, init string) []string {
+	out := make([]string, len(d))
+	for i, x := range d {
+		switch x {
+		case "I":
+			x = init
+		case "I~":
+			x = init + "~"
+		}
+		out[i] = x
+	}
+	return out
+}
+
+// the connection_init dimension: payload absent / null / {} / non-empty, crossed with what the InitFunc
+// returns (the context it was given / a derived one + an ack payload / a detached one)
+var initVariants = []string{"I", "Iu", "Io", "Ik"}
+var initFuncCfgs = []string{"", "v", "d"}
+
+// every way an operation started as id 1 can end (or fail to): client stop, server-side end / error / panic,
+// connection closed by either side (terminate, server cancel, abrupt, close frame, undecodable frame,
+// duplicate id -> 4409), plus results and a stop for another id
+var opEnds = []string{"X1", "e0", "d0", "r0", "p0", "T", "C", "A", "Z", "G", "S1", "X2"}
+
 func generate(tier string, seed uint64) []string {
 	var out []string
 	thorough := tier == "thorough"
 	protos := []string{"gqlws", "tws"}
-	first := []string{"I", "Ib", "Ir", "Io", "S1", "B1", "X1", "P", "O", "T", "W", "K", "Y", "G", "A", "Z", "C", "M"}
+	first := []string{"I", "Ib", "Ir", "Io", "Iu", "Ik", "S1", "B1", "X1", "P", "O", "T", "W", "K", "Y", "G", "A", "Z", "C", "M"}
 	for _, p := range protos {
 		// ---- the init phase: every first message, alone and followed by an init / a start
 		for _, a := range first {
@@ -166,8 +192,46 @@ func generate(tier string, seed uint64) []string {
 				out = append(out, script(p, "", append([]string{"I", "S1"}, w...)...))
 			})
 		}
+		// ---- init payload x InitFunc result x every way an operation ends; a result is requested afterwards
+		// (a stopped / closed operation must not deliver it)
+		for _, ini := range initVariants {
+			for _, ic := range initFuncCfgs {
+				maxEnd := 2
+				if thorough && ic == "" {
+					maxEnd = 3
+				}
+				for n := 1; n <= maxEnd; n++ {
+					words(opEnds, n, func(w []string) {
+						out = append(out, script(p, ic, append(append([]string{ini, "S1"}, w...), "e0")...))
+					})
+				}
+				extra := []string{"s"}
+				if thorough {
+					extra = []string{"s", "k", "op", "r", "sr"}
+				}
+				for _, x := range extra {
+					for _, e := range opEnds {
+						out = append(out, script(p, ic+x, ini, "S1", e, "?", "e0", "d0"))
+						out = append(out, script(p, ic+x, ini, "S1", "e0~", e+"~", "e0"))
+					}
+				}
+				// two operations: ending one must not touch the other, a close ends both
+				for _, x := range []string{"", "s"} {
+					for _, d := range [][]string{
+						{"S1", "S2", "X1", "?", "e0", "e1", "X2", "?", "e1"},
+						{"S1", "S2", "e0", "e1", "X2~", "X1", "?", "e0", "e1"},
+						{"S1", "S2", "d0", "?", "e1", "T", "?", "e1"},
+						{"S1", "S2", "X1~", "C~", "e1"},
+						{"S1", "X1", "S1", "e1", "X1", "?", "e1"},
+						{"S1", "e0", "X1~", "S2~", "e0~", "e1", "G"},
+					} {
+						out = append(out, script(p, ic+x, append([]string{ini}, d...)...))
+					}
+				}
+			}
+		}
 		// ---- directed adversarial shapes
-		for _, cfg := range []string{"", "s", "k", "op", "r", "sr"} {
+		for _, cfg := range []string{"", "s", "k", "op", "r", "sr", "v", "d", "ds"} {
 			dir := [][]string{
 				// duplicate id while the first operation is active
 				{"I", "S1", "S1", "e0", "e1", "X1", "?", "d0", "d1"},
@@ -230,11 +294,16 @@ func generate(tier string, seed uint64) []string {
 					c += "t"
 				}
 				out = append(out, script(p, c, d...))
+				// the same shape on a connection whose init carried a payload
+				if (cfg == "" || cfg == "s") && (d[0] == "I" || d[0] == "I~") {
+					out = append(out, script(p, c, withInit(d, "Ik")...))
+				}
 			}
 		}
 	}
 	// ---- seeded random longer conversations, mostly valid
 	r := rng.New(seed ^ 0xC11)
+	ri := rng.New(seed ^ 0xC11_1417) // the init dimension draws from its own stream (the conversations stay the same)
 	nRandom := 600
 	if thorough {
 		nRandom = 6000
@@ -258,8 +327,9 @@ func generate(tier string, seed uint64) []string {
 		var syms []string
 		valid := r.Below(10) != 0 // the malformed stream: 10%
 		if valid || r.Bool() {
-			syms = append(syms, "I")
+			syms = append(syms, initVariants[ri.Below(len(initVariants))])
 		}
+		cfg += []string{"", "", "v", "d"}[ri.Below(4)]
 		n := 4 + r.Below(9)
 		if thorough {
 			n += r.Below(8)
